@@ -242,6 +242,37 @@ def k_airy(c):
     return out
 
 
+def k_units(c):
+    """Quantity path: coordinates and centre in mm, length-like shape parameters in cm, flux in Jy.
+    The profile *shape* (value relative to the central value) must be what the unit-less model gives
+    for the same lengths expressed in one unit; pixel-integrated (PRF) models must agree in value."""
+    import astropy.units as u
+    import photutils.psf as P
+    name, sh = c['model'], c['shape_params']
+    cls = getattr(P, name)
+    yy, xx = np.mgrid[0:7, 0:8].astype(float)
+    x0, y0, F = 3.3, 2.9, 10.0
+    m0 = cls(flux=F, x_0=x0, y_0=y0, **sh)
+    ref = np.asarray(m0(xx, yy), float)
+    kw = {k: (v if k == 'beta' else (v * u.deg if k == 'theta' else v * 0.1 * u.cm)) for k, v in sh.items()}
+    m = cls(flux=F * u.Jy, x_0=x0 * u.mm, y_0=y0 * u.mm, **kw)
+    out = m(xx * u.mm, yy * u.mm)
+    val = np.asarray(out.value, float)
+    desc = f'{name}{sh} with coordinates in mm and shape parameters in cm'
+    res = [(str(out.unit) == 'Jy', f'units/output-unit/{name}', f'{desc}: output unit {out.unit}', None)]
+    if name.endswith('PRF'):
+        d = float(np.max(np.abs(val - ref)))
+        res.append((d <= 1e-12 * float(np.max(ref)), f'units/value/{name}',
+                    f'{desc}: differs from the unit-less model by {d:.3e}', {'maxdiff': d}))
+    else:
+        c0, r0 = float(m(x0 * u.mm, y0 * u.mm).value), float(m0(x0, y0))
+        d = float(np.max(np.abs(val / c0 - ref / r0)))
+        res.append((d <= 1e-12, f'units/profile-shape/{name}',
+                    f'{desc}: profile relative to the centre differs from the unit-less model by {d:.3e}',
+                    {'maxdiff': d}))
+    return res
+
+
 def k_shape(c):
     """non-negative, point-symmetric about the centre, peak at the centre, translation covariant,
     linear in flux."""
@@ -586,7 +617,7 @@ def k_pointwise(c):
 
 _KINDS = {'prf_sum': k_prf_sum, 'prf_point': k_prf_point, 'psf_gauss_integral': k_psf_gauss_integral,
           'pointwise': k_pointwise,
-          'moffat': k_moffat, 'airy': k_airy, 'shape': k_shape, 'consistency': k_consistency,
+          'moffat': k_moffat, 'airy': k_airy, 'units': k_units, 'shape': k_shape, 'consistency': k_consistency,
           'imagepsf': k_imagepsf, 'gridded': k_gridded}
 
 
@@ -695,6 +726,15 @@ def run(ctx):
         for (cx, cy) in [(0.0, 0.0), (10.31, -4.47)]:
             em.do({'kind': 'airy', 'params': {'radius': R, 'flux': 71.4, 'x_0': cx, 'y_0': cy},
                    'rmult': [1, 3, 10], 'phis': [0.0, 2.1]}, 'psf-integrates-to-flux')
+
+    # 3b. Quantity path with different (equivalent) units for coordinates and shape parameters
+    for name, sh in (('AiryDiskPSF', {'radius': 2.5}), ('MoffatPSF', {'alpha': 2.2, 'beta': 2.5}),
+                     ('CircularGaussianPSF', {'fwhm': 2.4}),
+                     ('GaussianPSF', {'x_fwhm': 2.0, 'y_fwhm': 3.0, 'theta': 30.0}),
+                     ('CircularGaussianPRF', {'fwhm': 2.4}),
+                     ('GaussianPRF', {'x_fwhm': 2.0, 'y_fwhm': 3.0, 'theta': 30.0}),
+                     ('CircularGaussianSigmaPRF', {'sigma': 1.1})):
+        em.do({'kind': 'units', 'model': name, 'shape_params': sh}, 'units-do-not-change-the-profile')
 
     # 4. shape properties
     shape_models = []
